@@ -10,6 +10,7 @@ import (
 	"time"
 
 	incr "github.com/wcharczuk/go-incr"
+	"github.com/wcharczuk/go-incr/incrutil"
 	"verifharness/internal/hx"
 )
 
@@ -106,6 +107,7 @@ type BRef struct {
 	Lhs   int
 	Cases []*Texp
 	Gen   int
+	Memo  incrutil.BindMemoizedIncr[int, int] // set for BindMemoized
 }
 
 type ORef struct {
@@ -313,14 +315,23 @@ func (e *Exec) newReturn(scope incr.Scope, sid, gen int, v int) *NRef {
 }
 
 func (e *Exec) newBind(scope incr.Scope, sid, gen int, cases []*Texp, a int) *NRef {
+	return e.newBindWith(false, scope, sid, gen, cases, a)
+}
+
+func (e *Exec) newBindWith(memo bool, scope incr.Scope, sid, gen int, cases []*Texp, a int) *NRef {
 	b := e.Next
 	br := &BRef{B: b, Lhs: a, Cases: cases}
-	bind := incr.BindContext(scope, e.Nodes[a].Inc, func(_ context.Context, bs incr.Scope, x int) (incr.Incr[int], error) {
+	fn := func(_ context.Context, bs incr.Scope, x int) (incr.Incr[int], error) {
 		if err := e.invoke(b, "WFn"); err != nil {
 			return nil, err
 		}
 		g := br.Gen
-		root := e.inst(bs, b, g, x, cases[norm3(x, len(cases))])
+		scopeID := b
+		if memo {
+			// BindMemoized builds the cached subgraph in the scope the bind itself lives in
+			scopeID, g = sid, gen
+		}
+		root := e.inst(bs, scopeID, g, x, cases[norm3(x, len(cases))])
 		br.Gen++
 		if root == nil {
 			e.emit(Event{K: "EvBindFn", N: b, R: x, Root: -1})
@@ -328,7 +339,14 @@ func (e *Exec) newBind(scope incr.Scope, sid, gen int, cases []*Texp, a int) *NR
 		}
 		e.emit(Event{K: "EvBindFn", N: b, R: x, Root: root.ID})
 		return root.Inc, nil
-	})
+	}
+	var bind incr.BindIncr[int]
+	if memo {
+		br.Memo = incrutil.BindMemoizedContext(scope, e.Nodes[a].Inc, fn)
+		bind = br.Memo
+	} else {
+		bind = incr.BindContext(scope, e.Nodes[a].Inc, fn)
+	}
 	lhsChange := bind.Parents()[0]
 	lref := e.register("BindLhs", nil, lhsChange, sid, gen, []int{a})
 	lref.Bind = br
@@ -417,6 +435,12 @@ func (e *Exec) Do(op Op) (out Sample) {
 			e.register("Always", inc, inc, -1, 0, []int{op.A})
 		case "NewBind":
 			e.newBind(e.G, -1, 0, op.Cases, op.A)
+		case "NewBindMemo":
+			e.newBindWith(true, e.G, -1, 0, op.Cases, op.A)
+		case "PurgeMemo":
+			e.Nodes[op.A].Bind.Memo.Cache().Purge(op.V)
+		case "ClearMemo":
+			e.Nodes[op.A].Bind.Memo.Cache().Clear()
 		case "Observe":
 			id := e.Next
 			e.Next++
